@@ -45,7 +45,7 @@ COMMANDS = ["create", "create_sf", "verify", "verify_sf", "verify_dh", "diff", "
 
 @st.composite
 def _scn(draw):
-    scn = draw(hist.scenarios(P1))
+    scn = draw(hist.scenarios_deep(P1))
     scn["steps"].append({"op": "create", "root": "", "formats": draw(gen.formats(2)), "flags": []})
     pos = st.one_of(st.sampled_from([0, 1000]), st.integers(0, 1000))
     scn["tampers"] = draw(
